@@ -611,7 +611,7 @@ def force(vf, seq, node, kind='forced'):
     res = ls.result
     rt = tt(vf, res) if res is not None else T.UNIT
     ls.result_term = rt
-    pure = not ls.lh and not ls.events
+    pure = not ls.lh and not any(getattr(e, 'fn', None) is None or any(r and r[1] for r in (getattr(e, 'refs', None) or [])) for e in ls.events)
     ls.pure = pure
     comp = mk_comp(seq.n, ls.var, rt)
     if not pure:
